@@ -166,8 +166,14 @@ func (c *codegen) checkNoSliceAlias(t gtype, lhs, rhs ast.Expr, at ast.Node) {
 		}
 		rhs = p.X
 	}
+	if c.phase5 && t.kind == kGSlice && lhs != nil && c.aliasableSlice(lhs, rhs) {
+		return // code_osap.go: a local alias of a slice value; recorded by noteSliceAlias, writes through either are refused (checkAliasWrite)
+	}
 	switch x := rhs.(type) {
 	case *ast.CallExpr:
+		if c.phase5 && t.kind == kGSlice && lhs != nil && c.consumedCallResult(lhs, x) {
+			return // code_osap.go: the value a callee appended to and handed back
+		}
 		if (isBuiltin(x, "make") && c.lookup("make") == nil) || (isBuiltin(x, "append") && c.lookup("append") == nil) {
 			return // append: only x = append(x, …) is accepted
 		}
@@ -423,7 +429,7 @@ func (c *codegen) checkSig3(fd *ast.FuncDecl, sig *fnSig) {
 						n++
 					}
 				}
-				if fd.Recv != nil || n != 1 {
+				if (fd.Recv != nil || n != 1) && !(c.phase5 && c.consumedParam(fd, p.name)) { // code_osap.go: a consumed parameter
 					c.fail(fd, "parameter %s of type %s next to a receiver or another slice parameter (a slice value of the third part may only be passed to a function that can reach no other slice: aliasing)", p.name, p.typ)
 				}
 			}
@@ -433,7 +439,10 @@ func (c *codegen) checkSig3(fd *ast.FuncDecl, sig *fnSig) {
 			c.fail(fd, "parameter %s of type %s (a slice value of the third part may not be passed: aliasing)", p.name, p.typ)
 		}
 	}
-	for _, r := range sig.results {
+	for i, r := range sig.results {
+		if r.typ.kind == kGSlice && c.phase5 && c.consumedResult(fd, i) {
+			continue // code_osap.go: the function hands back the slice value it was handed (and appended to)
+		}
 		if c.containsGSlice(r.typ, fd) {
 			c.fail(fd, "result of type %s (a slice value of the third part may not be returned: aliasing)", r.typ)
 		}
